@@ -116,8 +116,8 @@ class Ctx:
                     b.path in as_value or len(b.blocks) > 400:
                 continue
             ret = b.j.get('ret_ty', '')
-            if ret.startswith('base::planner::Path<'):
-                continue
+            if ret.startswith('base::planner::Path<') and self.fn(b).loops():
+                continue                                            # path extractor (walks the links itself)
             ptys = [b.local_ty(i) for i in range(1, b.arg_count + 1)]
             if ret == 'f64' and any(nt in t for nt in node_tys for t in ptys):
                 continue                                            # cost function
@@ -138,17 +138,27 @@ class Ctx:
             out.append(b.path)
         return sorted(out)
 
-    def inlined_view(self, split=False):
-        """a derived context whose core crate has every helper of inline_policy() inlined into its callers (bounded
-        depth) and removed as a stand-alone body; None when there is nothing to inline"""
-        from .inline import inline_calls
+    def binding_inline_policy(self, crate):
+        """private free functions of a binding crate (helpers such as a shared result converter); methods of the exported
+        classes are never inlined: the rules address them by name"""
+        out = []
+        if crate is None:
+            return out
+        for b in crate.bodies:
+            if b.kind != 'Fn' or b.is_pub or b.in_test_mod() or len(b.blocks) > 200 or (b.name or '').startswith('__'):
+                continue
+            if b.path in self.local_callees(b):
+                continue
+            if b.span.get('mac'):
+                continue            # macro generated (pyo3 / wasm-bindgen glue)
+            out.append(b.path)
+        return sorted(out)
+
+    def _transform_crate(self, crate, paths, split_targets, used, desugar=True):
+        """(new Crate | None if nothing changed | False if the inlining bound was hit)"""
+        from .inline import inline_calls, desugar_adaptors
         from .facts import Crate
-        from .inline import desugar_adaptors
-        paths = set(self.inline_policy())
-        crate = self.core
         done = {}
-        # decision splitting applies to the planners' entry points (the iteration-level selections live there)
-        split_targets = {m.path for p in self.planners() for m in p['entry']} if split else set()
 
         def pick(cb):
             return cb.path in paths
@@ -158,11 +168,12 @@ class Ctx:
                 return done[b.path]
             done[b.path] = b            # cycle guard
             nb = inline_calls(b, pick, crate, max_rounds=24, sub=lambda cb: resolved(cb, depth + 1) if depth < 4 else cb) if paths else b
-            nb2 = desugar_adaptors(nb, crate)
-            if nb2 is not nb:
-                nb2.inlined_from = set(getattr(nb, 'inlined_from', set())) | set(getattr(nb2, 'inlined_from', set()))
-                nb = nb2
-            if split and b.path in split_targets:
+            if desugar:
+                nb2 = desugar_adaptors(nb, crate)
+                if nb2 is not nb:
+                    nb2.inlined_from = set(getattr(nb, 'inlined_from', set())) | set(getattr(nb2, 'inlined_from', set()))
+                    nb = nb2
+            if b.path in split_targets:
                 from .inline import split_decisions
                 nb3 = split_decisions(nb)
                 if nb3 is not nb:
@@ -170,7 +181,7 @@ class Ctx:
             done[b.path] = nb
             return nb
         bodies = []
-        used = set()
+        mine = set()
         for b in crate.bodies:
             if b.path in paths and not b.in_test_mod():
                 continue
@@ -179,23 +190,50 @@ class Ctx:
                 continue
             nb = resolved(b)
             if nb is not b:
-                used |= getattr(nb, 'inlined_from', set())
+                mine |= getattr(nb, 'inlined_from', set())
             bodies.append(nb.j)
-        if not used:
+        if not mine:
             return None
+        used |= mine
         # closures consumed by a desugared adaptor are analysed in place only
-        gone = {u for u in used if not u.startswith('decision-split:') and crate.body(u) is not None and crate.body(u).kind == 'Closure'}
+        gone = {u for u in mine if not u.startswith('decision-split:') and crate.body(u) is not None and crate.body(u).kind == 'Closure'}
         bodies = [bj for bj in bodies if bj['path'] not in gone]
         for bj in bodies:
             for blk in bj['blocks']:
                 t = blk['term']
                 if not blk['cleanup'] and t['k'] == 'call' and t['func'].get('path') in paths:
-                    return None         # inlining bound reached: the view would be incomplete, do not use it
+                    return False        # inlining bound reached: the view would be incomplete, do not use it
         j2 = dict(crate.j)
         j2['bodies'] = bodies
-        core2 = Crate(j2)
-        removed = {p: crate.body(p).j.get('impl_adt') for p in paths}
-        c2 = Ctx(None, _derived=(self, core2, removed))
+        return Crate(j2)
+
+    def inlined_view(self, split=False):
+        """a derived context in which every helper of inline_policy() (core crate) and every private free function of the
+        binding crates is inlined into its callers (bounded depth) and removed as a stand-alone body, the short-circuit
+        iterator adaptors all/any are written as loops and (split=True) value selections at the top of a planner
+        iteration are split into one copy of the iteration per arm.  None when nothing changes."""
+        paths = set(self.inline_policy())
+        used = set()
+        # decision splitting applies to the planners' entry points (the iteration-level selections live there)
+        split_targets = {m.path for p in self.planners() for m in p['entry']} if split else set()
+        core2 = self._transform_crate(self.core, paths, split_targets, used)
+        if core2 is False:
+            return None
+        py2 = js2 = None
+        if self.py is not None:
+            py2 = self._transform_crate(self.py, set(self.binding_inline_policy(self.py)), set(), used, desugar=False)
+        if self.js is not None:
+            js2 = self._transform_crate(self.js, set(self.binding_inline_policy(self.js)), set(), used, desugar=False)
+        if py2 is False or js2 is False:
+            return None
+        if not used:
+            return None
+        removed = {p: self.core.body(p).j.get('impl_adt') for p in paths}
+        c2 = Ctx(None, _derived=(self, core2 or self.core, removed))
+        if py2:
+            c2.py = py2
+        if js2:
+            c2.js = js2
         c2.inlined_used = sorted(used)
         return c2
 
